@@ -166,12 +166,42 @@ def denote_equal(res, ivs, t1, t2):
     return None
 
 
-def run_case(ctx, Livetime, get_data_subset, DatasetData, DFRA, case, model_exprs, checks):
-    """run the implementation on one case, queue the model expressions"""
+def views(ctx, lt, ivs, when, hist):
+    """the cheap accessors derived from the interval array; they must describe
+    the interval set the object holds NOW (also on a re-used object)"""
+    want = {'livetime': sum(u - l for l, u in ivs), 'n': len(ivs),
+            'start': ivs[0][0], 'stop': ivs[-1][1]}
+    got = {'livetime': f2z(float(lt.livetime)), 'n': int(lt.n_uptime_mjd_intervals),
+           'start': f2z(float(lt.time_start)), 'stop': f2z(float(lt.time_stop))}
+    tw = lt.time_window
+    got_tw = (f2z(float(tw[0])), f2z(float(tw[1])))
+    got_arr = [(f2z(a), f2z(b)) for a, b in lt.uptime_mjd_intervals_arr.tolist()]
+    if got != want or got_tw != (want['start'], want['stop']) or got_arr != list(ivs):
+        ctx.violation('Livetime.livetime/time_window/n_uptime_mjd_intervals', 'stale-or-wrong-view',
+                      f'accessors {when} do not describe the current interval set (re-used object: {hist})',
+                      case={'ivs': ivs, 'scale': SCALE, 'history': hist}, impl={'got': got, 'tw': got_tw}, model=want,
+                      predicate='livetime = sum of interval lengths of the current set; start/stop/n likewise')
+    return got['livetime']
+
+
+def run_case(ctx, Livetime, get_data_subset, DatasetData, DFRA, case, model_exprs, checks, reuse=None):
+    """run the implementation on one case, queue the model expressions.
+    `reuse`: a Livetime object that already served other interval sets; the
+    new set is assigned through the public setter (history: query, assign,
+    query) -- no query may remember anything of the earlier set."""
     ivs = case['ivs']
     arr = np.array([[z2f(a), z2f(b)] for a, b in ivs], dtype=np.float64).reshape((len(ivs), 2))
-    lt = Livetime(arr)
+    if reuse is None:
+        lt = Livetime(arr)
+        ctx.count('object:fresh')
+    else:
+        lt = reuse
+        lt.uptime_mjd_intervals_arr = arr
+        ctx.count('object:reused')
     civs = zpairs(ivs)
+    lv = views(ctx, lt, ivs, 'before the queries', reuse is not None)
+    model_exprs.append(f'livetime {civs}')
+    checks.append(('livetime', {'ivs': ivs, 'scale': SCALE, 'reused': reuse is not None}, lv))
     # is_on / upto on query times
     q = case['queries']
     impl_on = [bool(b) for b in lt.is_on(np.array([z2f(t) for t in q]))]
@@ -300,12 +330,16 @@ def run_case(ctx, Livetime, get_data_subset, DatasetData, DFRA, case, model_expr
                           case={'ivs': ivs, 'events': ev, 'window': (kind, t1, t2), 'scale': SCALE}, impl=impl_s)
         model_exprs.append(f'subset {civs} {zlist(ev)} {zlit(t1)} {zlit(t2)}')
         checks.append(('subset', {'ivs': ivs, 'events': ev, 'window': (kind, t1, t2), 'scale': SCALE}, impl_s))
+    views(ctx, lt, ivs, 'after the queries', reuse is not None)
+    return lt
 
 
 def canon_model(kind, v):
     """bring the parsed Coq value to the implementation's canonical form"""
     if kind == 'is_on':
         return list(v)
+    if kind == 'livetime':
+        return v
     if isinstance(v, tuple) and v[0] == 'Err':
         return ['Err', v[1]]
     assert isinstance(v, tuple) and v[0] == 'Ok', v
@@ -387,9 +421,13 @@ def run(ctx):
     while len(cases) < n_cases:
         cases.append(gen_case(ctx, rng))
     model_exprs, checks = [], []
-    for c in cases:
+    shared = None            # one object serves every second case (history: query, assign, query, ...)
+    for i, c in enumerate(cases):
         ctx.case(c)
-        run_case(ctx, Livetime, get_data_subset, DatasetData, DFRA, c, model_exprs, checks)
+        if i % 2 == 1:
+            shared = run_case(ctx, Livetime, get_data_subset, DatasetData, DFRA, c, model_exprs, checks, reuse=shared)
+        else:
+            run_case(ctx, Livetime, get_data_subset, DatasetData, DFRA, c, model_exprs, checks)
     ctx.sample({'ivs_days': [[z2f(a), z2f(b)] for a, b in cases[-1]['ivs']][:6],
                 'windows': [(k, as_float_window(a), as_float_window(b)) for k, a, b in cases[-1]['windows']][:4]})
     if ctx.model_ok:
@@ -418,6 +456,9 @@ def replay(ctx, rp):
             'draws': c.get('draws') or [0, 2 ** 19], 'events': c.get('events') or []}
     model_exprs, checks = [], []
     ctx.case(case)
-    run_case(ctx, Livetime, get_data_subset, DatasetData, DFRA, case, model_exprs, checks)
+    reuse = None
+    if c.get('history') or c.get('reused'):
+        reuse = run_case(ctx, Livetime, get_data_subset, DatasetData, DFRA, corpus_cases()[0], model_exprs, checks)
+    run_case(ctx, Livetime, get_data_subset, DatasetData, DFRA, case, model_exprs, checks, reuse=reuse)
     if ctx.model_ok:
         compare(ctx, checks, common.coq_eval('c14r', IMPORTS, model_exprs))
